@@ -27,7 +27,7 @@ func runC15(c *Ctx) {
 	rounds := 3
 	nstates := 400
 	if !c.Quick() {
-		rounds = 12
+		rounds = 36
 		nstates = 3000
 	}
 	even := &Filt{Tag: FFn, Children: []*Filt{{Tag: FNSName, IDs: []ID2{{1, 2}, {1, 4}}}}}
